@@ -7,6 +7,7 @@ class Context:
         self.tier = tier
         self._progs = {}
         self._paths = None
+        configs.prune_cache(keep=8)
 
     def cfgs(self, quick=None, thorough=None):
         """configurations for this tier"""
